@@ -397,7 +397,10 @@ def check(report, tier, only=None):
     report.outside += ['interleavings with other threads are discharged by the lock-bracketing obligation plus the RwLock contract, not explored',
                        'that quinn actually closes the connection; lagging broadcast receivers']
     from props import handler
-    obs = [ob_add, ob_remove, ob_remove_sid, ob_wrappers, ob_accessors, lambda rep: handler.ob_handler_tail(rep, PROP), lambda rep: handler.ob_add_peer(rep, PROP)]
+    from props import C12       # (C12 imports nothing from here)
+    # LostPeer must follow the observed end of the connection directly: the removal precedes the teardown of the request tasks
+    obs = [ob_add, ob_remove, ob_remove_sid, ob_wrappers, ob_accessors, lambda rep: handler.ob_handler_tail(rep, PROP), lambda rep: handler.ob_add_peer(rep, PROP),
+           C12.ob_tail_aborts_tasks]
     if tier == 'thorough':
         obs.append(ob_two_step)
     for f in obs:
